@@ -156,6 +156,24 @@ def run_modes(run, pack9, data, box, velz, tag, modes):
                 return True
             run.nt((tag.split(':')[0], np.dtype(dtype).str, mode, tag.split(':')[1] if ':' in tag else ''))
             continue
+        elif mode == 'supplied_exact':
+            # outputs sized to the number of particles (fewer rows than records whenever the stream has headers); one of them only
+            which = ('both', 'pos', 'vel')[run.counters.get('supplied_exact_calls', 0) % 3]
+            run.count('supplied_exact_calls')
+            pb = np.full((npart_ref + 2 * G, 3), 4242.0, dtype=dtype)
+            vb = np.full((npart_ref + 2 * G, 3), 4242.0, dtype=dtype)
+            po = pb[G : G + npart_ref] if which in ('both', 'pos') else False
+            vo = vb[G : G + npart_ref] if which in ('both', 'vel') else False
+            np_, nv_ = pack9.unpack_pack9(data, box, velz, float_dtype=dtype, posout=po, velout=vo)
+            exp_counts = [npart_ref if po is not False else 0, npart_ref if vo is not False else 0]
+            if [int(np_), int(nv_)] != exp_counts:
+                run.violation('pack9-count', dict(stream=tag, mode=mode, outputs=which, returned=[int(np_), int(nv_)], expected=exp_counts))
+                continue
+            for b in (pb, vb):
+                if not ((b[:G] == 4242.0).all() and (b[G + npart_ref :] == 4242.0).all()):
+                    run.violation('pack9-canary', dict(stream=tag, mode=mode, problem='wrote outside a supplied output sized to the particle count'))
+            pos = pb[G : G + npart_ref] if po is not False else None
+            vel = vb[G : G + npart_ref] if vo is not False else None
         else:  # supplied
             pb = np.full((N + 2 * G, 3), 4242.0, dtype=dtype)
             vb = np.full((N + 2 * G, 3), 4242.0, dtype=dtype)
@@ -175,7 +193,7 @@ def run_modes(run, pack9, data, box, velz, tag, modes):
     return False
 
 
-ALL_MODES = list(itertools.product((np.float64, np.float32), ('alloc', 'pos_only', 'vel_only', 'supplied', 'supplied_strided', 'supplied_otherdtype')))
+ALL_MODES = list(itertools.product((np.float64, np.float32), ('alloc', 'pos_only', 'vel_only', 'supplied', 'supplied_strided', 'supplied_otherdtype', 'supplied_exact')))
 
 
 def check(run):
